@@ -96,16 +96,26 @@ def r_uint_tables(ctx, only=None):
     # parse_decimal: Uk ↦ str::parse::<uk>
     fn = ctx.anchor(fx, 'value::UIntValue::parse_decimal')
     pd = {}
-    for kind, p, ret in explore(ctx, fn):
+    inst = {}
+    for kind, p, ret in explore(ctx, fn, follow_break=True):
         labs = [l for w, l in p.conds if l in WIDTHS]
-        if kind != 'RET' or len(labs) != 1:
+        if len(labs) != 1:
             continue
-        pc = [c for c in calls_in(ret, 'parse') if 'str' in c[1]]
-        ctor = None
-        fin = [c for c in calls_in(ret) if c[1].split('::')[-1] in ('map', 'and_then') and c[2][1][0] == 'fn']
-        ctor = fin[0][2][1][1].split('::')[-1] if fin else None
-        m = re.search(r'parse::<([\w:]+)>', pc[0][3]) if pc else None
-        pd[labs[0]] = (m.group(1).split('::')[-1] if m else None, ctor)
+        for e in event_calls(p, 'parse'):
+            m = re.search(r'parse::<([\w:]+)>', e[1] + ' ' + str([t0 for t0 in [e]][0][1]))
+        pc = [c for x in ([ret] + [w for w, l in p.conds]) if isinstance(x, tuple) for c in calls_in(x, 'parse') if 'str' in c[1]]
+        if pc:
+            m = re.search(r'parse::<([\w:]+)>', pc[0][3])
+            if m:
+                inst[labs[0]] = m.group(1).split('::')[-1]
+    from .. import guards as guards_
+    # the constructor the parsed number is wrapped in, read from the decision rows (written with `?`, map or and_then alike)
+    for r in guards_.decision_table(ctx, fn, plain=True):
+        labs = [c[3:] for c in r['conds'] if c.startswith('ty=') and c[3:] in WIDTHS]
+        if len(labs) != 1 or r['out'].startswith('err'):
+            continue
+        m = re.match(r'^(?:Ok\{)?(\w+)[\{\(]parse\(', r['value'])
+        pd[labs[0]] = (inst.get(labs[0]), m.group(1) if m else None)
     exp = {v: ('u%d' % n, v) for v, n in WIDTHS.items()}
     exp.update({'U1': ('u8', 'u1'), 'U2': ('u8', 'u2'), 'U4': ('u8', 'u4'), 'U256': ('U256', 'U256')})
     ob(rid, 'parse_decimal', pd == exp, 'parse_decimal: Uk ↦ s.parse::<uk>() wrapped in Uk (u1/u2/u4 through u8 and the range-checked constructors)', fn.where(), str(pd))
@@ -157,7 +167,7 @@ def r_shared_callee(ctx):
     }
     for path, callees in need.items():
         fn = ctx.anchor(fx, path)
-        have = {c for bid, c, t in fn.calls()}
+        have = {c for bid, c, t in deep_calls(fx, fn)}
         for cl in fx.find('^' + re.escape(path) + r'::\{closure#\d+\}$'):
             have |= {c for bid, c, t in cl.calls()}
         for c in callees:
@@ -279,19 +289,26 @@ def r_reconstruct(ctx):
 
 def r_value_to_structural(ctx, rid='R07.9', only=None):
     ctx.rule(rid, 'StructuralValue::from(&Value): each typed value variant becomes the structural constructor of the same name with the type components of that node (into() = StructuralType::from)')
+    from .. import guards as G
     fx = ctx.facts()
     fn = ctx.anchor(fx, '<value::StructuralValue as std::convert::From<&value::Value>>::from')
     got = {}
-    for kind, p, ret in explore(ctx, fn, max_visits=1):
-        for e in event_calls(p, 'push'):
-            if 'Vec' not in e[1]:
-                continue
-            before = [(S(w), l) for w, l in p.conds[:e[5]]]
-            form = [l for w, l in before if w.endswith('.node.inner') or w.endswith('.node.inner@Either.0') or w.endswith('.node.inner@Option.0')]
-            v = S(e[2][1]).replace('next(into_iter(post_order_iter(value)))@Some.0.node', 'NODE')
-            v = v.replace('split_off(new(), SubWithOverflow(len(new()), n_children(NODE)).0)', 'CHILDREN').replace('unwrap(pop(new()))', 'CHILD')
-            got['.'.join(form[-2:]) if form and form[-1] in ('Left', 'Right', 'None', 'Some') else (form[-1] if form else '?')] = v
-    T = 'ty(NODE)), "value is type-checked")'
+    G._FX[0] = fx
+    prev = G._ACC_ON[0]
+    G._ACC_ON[0] = True       # `data.node.inner` and `node.inner()` are the same projection
+    try:
+        for kind, p, ret in explore(ctx, fn, max_visits=1):
+            for e in event_calls(p, 'push'):
+                if 'Vec' not in e[1]:
+                    continue
+                before = [(G.unq(G.N(w)), l) for w, l in p.conds[:e[5]]]
+                form = [l for w, l in before if w.endswith('.node.inner') or w.endswith('.node.inner@Either.0') or w.endswith('.node.inner@Option.0')]
+                v = G.unq(G.N(e[2][1])).replace('next(into_iter(post_order_iter(value))).node', 'NODE')
+                v = v.replace('split_off(new(), SubWithOverflow(len(new()), n_children(NODE)).0)', 'CHILDREN').replace('unwrap(pop(new()))', 'CHILD')
+                got['.'.join(form[-2:]) if form and form[-1] in ('Left', 'Right', 'None', 'Some') else (form[-1] if form else '?')] = v
+    finally:
+        G._ACC_ON[0] = prev
+    T = 'NODE.ty), "value is type-checked")'
     exp = {'Either.Left': 'left(CHILD, expect(as_either(%s.1)' % T, 'Either.Right': 'right(expect(as_either(%s.0, CHILD)' % T, 'Option.None': 'none(expect(as_option(%s)' % T, 'Option.Some': 'some(CHILD)',
            'Tuple': 'tuple(CHILDREN)', 'Array': 'array(CHILDREN, expect(as_array(%s.0)' % T, 'List': 'list(CHILDREN, expect(as_list(%s.0, NODE.inner@List.1)' % T,
            'UInt': 'from(NODE.inner@UInt.0)', 'Boolean': 'from(NODE.inner@Boolean.0)'}
